@@ -145,15 +145,23 @@ func buildShared(d protoreflect.Message, variant int) proto.Message {
 		addUnknowns(g)
 		return g
 	}
-	if variant == 5 {
+	if variant == 5 || variant == 6 {
 		// every singular google.protobuf.Any field carries a payload of this very (pulsar) type whose unknown records are
-		// separated by known fields: JSON marshalling decodes that payload out of the shared message's own bytes
+		// separated by known fields: JSON marshalling decodes that payload out of the shared message's own bytes.
+		// Variant 6: the payload is a pulsar message holding a string-keyed map with 200 entries (whatever a decoder keeps
+		// per key across calls - an intern table, a scratch buffer - is then written on every concurrent decode)
 		g := enum.BuildGo(d)
 		addUnknowns(g)
 		md := d.Descriptor()
 		ua := enum.UnknownAlphabet(md, enum.Reduced)
 		inner, _ := proto.MarshalOptions{Deterministic: true}.Marshal(richValue(md, 0).Interface())
 		payload := append(append(append([]byte(nil), ua[0]...), inner...), ua[1]...)
+		pmd := md
+		if variant == 6 {
+			if bmd, pb := bigStringMapPayload(); bmd != nil {
+				pmd, payload = bmd, pb
+			}
+		}
 		m := enum.Slow(g)
 		fs := md.Fields()
 		for i := 0; i < fs.Len(); i++ {
@@ -162,7 +170,7 @@ func buildShared(d protoreflect.Message, variant int) proto.Message {
 				continue
 			}
 			a := m.Mutable(fd).Message()
-			a.Set(a.Descriptor().Fields().ByName("type_url"), protoreflect.ValueOfString("/"+string(md.FullName())))
+			a.Set(a.Descriptor().Fields().ByName("type_url"), protoreflect.ValueOfString("/"+string(pmd.FullName())))
 			a.Set(a.Descriptor().Fields().ByName("value"), protoreflect.ValueOfBytes(append([]byte(nil), payload...)))
 		}
 		return g
@@ -222,6 +230,38 @@ func addUnknowns(g proto.Message) {
 		}
 		return true
 	})
+}
+
+var bigPayload struct {
+	once sync.Once
+	md   protoreflect.MessageDescriptor
+	b    []byte
+}
+
+// bigStringMapPayload: the encoding of a pulsar message whose first map<string, scalar> field holds 200 entries.
+func bigStringMapPayload() (protoreflect.MessageDescriptor, []byte) {
+	bigPayload.once.Do(func() {
+		for _, md := range enum.TypesMatching("") {
+			fs := md.Fields()
+			for i := 0; i < fs.Len(); i++ {
+				fd := fs.Get(i)
+				if !fd.IsMap() || fd.MapKey().Kind() != protoreflect.StringKind || fd.MapValue().Kind() == protoreflect.MessageKind || fd.MapValue().Kind() == protoreflect.EnumKind {
+					continue
+				}
+				dm := enum.NewDyn(md)
+				mp := dm.Mutable(fd).Map()
+				for k := 0; k < 200; k++ {
+					mp.Set(protoreflect.ValueOfString(fmt.Sprintf("key%03d", k)).MapKey(), mp.NewValue())
+				}
+				b, err := proto.MarshalOptions{Deterministic: true}.Marshal(dm.Interface())
+				if err == nil {
+					bigPayload.md, bigPayload.b = md, b
+					return
+				}
+			}
+		}
+	})
+	return bigPayload.md, bigPayload.b
 }
 
 func hasAnyField(md protoreflect.MessageDescriptor) bool {
@@ -876,8 +916,8 @@ func runRacePass(h *hz.H) {
 		if onlyType != "" && string(md.FullName()) != onlyType {
 			continue
 		}
-		for variant := 0; variant < 6; variant++ {
-			if variant == 5 && !hasAnyField(md) {
+		for variant := 0; variant < 7; variant++ {
+			if variant >= 5 && !hasAnyField(md) {
 				continue
 			}
 			d := richValue(md, variant)
